@@ -193,9 +193,14 @@ def run_cases(mod, tier, root, shard=None, only_case=None, deadline=None):
         it = enumerate(mod.cases(tier))
     total = 0
     done = 0
+    only = set(filter(None, os.environ.get("VERIF_ONLY", "").split(",")))  # dev aid: restrict to named sub-checks (reported as a cap)
+    if only and only_case is None:
+        ctx.caps.append("VERIF_ONLY=" + ",".join(sorted(only)) + " (development filter: other sub-checks not run)")
     for index, case in it:
         total += 1
         if shard is not None and index % shard[1] != shard[0]:
+            continue
+        if only and only_case is None and case.get("check") not in only:
             continue
         if deadline is not None and time.time() - t0 > deadline:
             ctx.caps.append(f"shard {shard} stopped at case index {index} after {deadline}s budget")
